@@ -15,7 +15,9 @@ DECLS = [D('i', 'int', default=1), D('f', 'float', default=0.5), D('b', 'bool', 
          D('sl', 'str', F_LIST, default=['a', 'b']), D('fl', 'float', F_LIST, default=[1.5]), D('p', 'ptr', cbs='pf'), D('fn', 'func', cbs='F'),
          D('include', 'func', cbs='I'), D('sec', 'sec', F_MULTI | F_TITLE, sub=SEC), D('uniq', 'sec', F_MULTI | F_TITLE | F_NO_TITLE_DUPES, sub=[D('u', 'int', default=0)]),
          D('one', 'sec', 0, sub=[D('z', 'int', default=1), D('zs', 'str', default='q'), D('deep', 'sec', 0, sub=[D('d', 'str', F_LIST, default=['x'])])]),
-         D('kv', 'sec', F_KEYSTRVAL, sub=[]), D('nd', 'sec', F_NODEFAULT, sub=[D('w', 'str', default='w')]), D('sv', 'str', default='v', cbs='w')]
+         D('kv', 'sec', F_KEYSTRVAL, sub=[]), D('nd', 'sec', F_NODEFAULT, sub=[D('w', 'str', default='w')]), D('sv', 'str', default='v', cbs='w'),
+         # a hand-written declaration carrying a string default, a parsed default and a comment at once
+         D('both', 'str', default='string default', dparsed='"parsed default"', comment='declared comment')]
 NAMES = [d.name for d in DECLS]
 TEXT1 = ('i = 5\ns = "str"\nil = {1, 2, 3}\nsl += {"x"}\nfl = 2.5\np = obj\nfn(one, "two")\nsec a { x = 1 xs = "s" xl += {5} sub { y = 1 yl = {} } sub { } inner { q = "w" } }\n'
          'sec b { }\nsec a { x = 2 }\nuniq t { u = 1 }\none { z = 2 deep { d += {"y"} } }\nkv { alpha = "1" beta = two alpha = "3" }\nnd { w = "set" }\nnd { }\n')
